@@ -83,6 +83,9 @@ def check(sid, props, tier="quick"):
     out = os.path.join(SEEDED, sid)
     meta = json.load(open(os.path.join(out, "meta.json")))
     props = props or [meta["breaks_property"]]
+    if any(v.get("rc") is None for v in meta.get("detected_by", {}).values()):
+        print(f"{sid}: superseded (the defect it led to was repaired; see meta.json), not re-run")
+        return 0
     d, repo = copy_repo()
     try:
         ok, msg = apply_patch(repo, os.path.join(out, "patch.diff"))
